@@ -117,10 +117,10 @@ def _cmds(prog, entry, srcdir, store, root, var):
 
             modn = ir.modname(prog, vv["mod"])
             ip = bool(pre.get("inplace"))
-            cmds.append({"cmd": "mutate", "module": modn, "var": pre["var"], "value": _pyvalue(vv["kind"], pre["value"]),
+            cmds.append({"cmd": "mutate", "module": modn, "var": pre["var"], "value": copy.deepcopy(_pyvalue(vv["kind"], pre["value"])),
                          "inplace": ip})
             cmds.append({"cmd": "eval", "entry": pname, "style": "eval", "options": {}})
-            cmds.append({"cmd": "mutate", "module": modn, "var": pre["var"], "value": _pyvalue(vv["kind"], vv["value"]),
+            cmds.append({"cmd": "mutate", "module": modn, "var": pre["var"], "value": copy.deepcopy(_pyvalue(vv["kind"], vv["value"])),
                          "inplace": ip})
         elif pre["op"] == "failed_eval":
             cmds.append({"cmd": "eval", "entry": pname, "style": "eval", "options": {},
